@@ -453,6 +453,9 @@ def run_check(prop, families, level='model_checking', technique='',
             inconclusive.append('%s: not explored, time budget exhausted'
                                 % fam.name)
             continue
+        # the cap on exact re-solves per (clause, fingerprint) is per family:
+        # warm-up paths run in this process, whose state the workers inherit
+        _FOUND.clear()
         results, stats = symex.explore(
             fam.path_fn, workers=args.workers or None, time_budget=left)
         oc = collections.Counter(r.outcome for r in results)
